@@ -917,6 +917,155 @@ pub fn build(key: &str, seed: u64) -> Option<Built> {
     }
 }
 
+// -------------------------------------------------------------------------------------------------
+// Linear-time evidence (secondary, bounded): deterministic instruction counts under cachegrind
+// -------------------------------------------------------------------------------------------------
+
+pub const LIN_FAMILIES: [&str; 6] = ["many-tiny-structs", "many-elements", "maximal-xy-records", "many-properties", "maximal-strings", "error-at-the-very-end"];
+/// sizes in KiB (N, 2N, 4N)
+pub const LIN_SIZES: [usize; 3] = [64, 128, 256];
+
+/// A stream of the family of roughly `kib` KiB.
+pub fn lin_stream(family: &str, kib: usize) -> Vec<u8> {
+    let target = kib * 1024;
+    let mut l = fixed_header();
+    let mut s = fixed_struct(0);
+    match family {
+        "many-tiny-structs" => {
+            let n = target / 40;
+            for i in 0..n {
+                let mut st = fixed_struct(i % 2);
+                st.name = format!("c{i:06}").into_bytes();
+                l.structs.push(st);
+            }
+        }
+        "many-elements" | "error-at-the-very-end" => {
+            let n = target / 66;
+            for i in 0..n {
+                s.elems.push(fixed_elem(Kind::ALL[i % 7], false, i % 5));
+            }
+            l.structs.push(s);
+        }
+        "maximal-xy-records" => {
+            for i in 0..kib / 64 {
+                let mut e = fixed_elem(Kind::Boundary, false, i % 5);
+                e.xy = (0..8191 * 2).map(|k| k as i32 * 3 - 20000).collect();
+                s.elems.push(e);
+            }
+            l.structs.push(s);
+        }
+        "many-properties" => {
+            let mut e = fixed_elem(Kind::Boundary, false, 0);
+            for i in 0..target / 14 {
+                e.props.push(((i % 30000) as i16, format!("v{:03}", i % 1000).into_bytes()));
+            }
+            s.elems.push(e);
+            l.structs.push(s);
+        }
+        "maximal-strings" => {
+            for i in 0..kib / 64 {
+                let mut e = fixed_elem(Kind::Text, false, i % 5);
+                e.string = long_string(65530);
+                s.elems.push(e);
+            }
+            l.structs.push(s);
+        }
+        _ => panic!("MACHINERY: unknown linear-time family {family}"),
+    }
+    let mut recs = gs::lib_records(&l);
+    if family == "error-at-the-very-end" {
+        // the last record is an undefined record type: the reader must fail only after consuming everything
+        let n = recs.len();
+        recs[n - 1] = Rec::new(0x63, 0, vec![]);
+    }
+    gs::records_to_bytes(&recs).expect("MACHINERY: linear-time stream")
+}
+
+/// `l21mc gdsread <file>`: the stand-alone reader run under cachegrind.
+pub fn gdsread_main(path: &str) -> i32 {
+    let bytes = std::fs::read(path).expect("gdsread: cannot read file");
+    match GdsLibrary::from_bytes(&bytes) {
+        Ok(l) => {
+            std::hint::black_box(&l);
+            0
+        }
+        Err(_) => 0,
+    }
+}
+
+/// instructions executed by `l21mc gdsread file` (Ir under cachegrind); Err(reason) when valgrind cannot be run
+fn cachegrind_instructions(file: &str) -> Result<u64, String> {
+    let exe = std::env::current_exe().map_err(|e| e.to_string())?;
+    let out = std::process::Command::new("valgrind")
+        .args(["--tool=cachegrind", "--cache-sim=no", "--cachegrind-out-file=/dev/null"])
+        .arg(exe)
+        .args(["gdsread", file])
+        .stdin(std::process::Stdio::null())
+        .stdout(std::process::Stdio::null())
+        .stderr(std::process::Stdio::piped())
+        .output()
+        .map_err(|e| format!("cannot run valgrind: {e}"))?;
+    let err = String::from_utf8_lossy(&out.stderr);
+    for line in err.lines() {
+        if let Some(i) = line.find("I   refs:") {
+            let digits: String = line[i + 9..].chars().filter(|c| c.is_ascii_digit()).collect();
+            return digits.parse::<u64>().map_err(|e| e.to_string());
+        }
+    }
+    Err(format!("no instruction count in cachegrind output (exit {:?}): {}", out.status.code(), truncate(&err, 300)))
+}
+
+impl C10 {
+    fn linear_family(&self, family: &str, cx: &mut Cx) {
+        let key = format!("l{SEP}{family}");
+        let mut counts = [0u64; 3];
+        for (i, kib) in LIN_SIZES.iter().enumerate() {
+            if !cx.enter(&key) {
+                return;
+            }
+            let bytes = lin_stream(family, *kib);
+            let file = cx.scratch_file(&format!("lin-{family}-{kib}.gds"));
+            if let Err(e) = std::fs::write(&file, &bytes) {
+                cx.machinery(format!("cannot write {file}: {e}"));
+                return;
+            }
+            // the stream itself also goes through the ordinary oracle (in-process)
+            let k2 = format!("l{SEP}{family}{SEP}{kib}");
+            cx.stats.executions += 1;
+            cx.state(hash_bytes(&bytes), true);
+            judge(&k2, &bytes, &|| format!("linear-time family {family}, {kib} KiB"), cx);
+            cx.enter(&key);
+            match cachegrind_instructions(&file) {
+                Ok(n) => counts[i] = n,
+                Err(e) => {
+                    cx.cap("cachegrind-unavailable");
+                    cx.tag("linear-time:skipped");
+                    let _ = std::fs::remove_file(&file);
+                    let _ = e;
+                    return;
+                }
+            }
+            let _ = std::fs::remove_file(&file);
+            cx.tag_n(&format!("instructions:{family}:{kib}KiB"), counts[i]);
+        }
+        cx.tag("part:linear-time");
+        cx.stats.evaluations += 1;
+        let (d1, d2) = (counts[1].saturating_sub(counts[0]), counts[2].saturating_sub(counts[1]));
+        if d2 > 3 * d1.max(1) {
+            cx.outcome("linear-time:superlinear");
+            cx.fail(
+                &key,
+                "superlinear",
+                None,
+                || format!("family {family}: instructions {} / {} / {} for {} / {} / {} KiB; I(4N)-I(2N) = {d2} > 3 x (I(2N)-I(N)) = {}", counts[0], counts[1], counts[2], LIN_SIZES[0], LIN_SIZES[1], LIN_SIZES[2], 3 * d1),
+                || json!({"family": family, "instructions": counts}),
+            );
+        } else {
+            cx.outcome("linear-time:ok");
+        }
+    }
+}
+
 const SEP: char = ';';
 
 pub struct C10;
@@ -996,7 +1145,7 @@ impl Driver for C10 {
         let nb = generated_bases().len();
         Describe {
             rule: format!(
-                "base streams: {nb} reference-encoder streams (empty library, empty structure, each element kind minimal and with all optional records, strans variants, property list, mixed strings, two multi-element structures, long coordinate lists, a 24-structure library) + the {} tracked repository .gds files. [T] every byte prefix of bases with <= 64 records (incl. length 0 and the full stream), record boundary +-0..3 bytes of the larger ones. [F] at {} record position(s) each of {} single-record faults: length field := 0,1,2,3,odd,len-2,len+2,0xFFFE,0xFFFF; payload emptied; record type := each of 0x00..0x3b and 0x3c,0x3d,0x40,0x7f,0x80,0xfe,0xff; data type := 0..7,255; record deleted / duplicated / swapped with successor; a whole element of each of the 7 kinds spliced in; record replaced by / preceded by each record of the minimal typed alphabet; each 8-byte real := {{0, 1 (smallest unnormalised), 0x80..0, 0x7f..f, 0xff..f, smallest normalised, largest unnormalised at exponent 0, a negative unnormalised}}. {} [S] after each of {} parser contexts (library header x5, structure x4, each element kind after its start record and after XY, after STRANS/MAG, after PROPATTR/PROPVALUE/ENDEL, after ENDLIB) every sequence of 1..2 records over the full typed alphabet ({} records: each defined record type with minimal valid payload, zero-length variant, wrong-size variant, the ten unreleased types, XY with 3/5 points){}, each once followed by end-of-input and once by the context's natural completion. [HL] all 65 536 values of the length field at 3 record positions; [HT] all 256 x 256 (record type, data type) pairs at 2 record positions. A state is one byte stream (hashed); non-trivial = differs from its unfaulted base.",
+                "base streams: {nb} reference-encoder streams (empty library, empty structure, each element kind minimal and with all optional records, strans variants, property list, mixed strings, two multi-element structures, long coordinate lists, a 24-structure library) + the {} tracked repository .gds files. [T] every byte prefix of bases with <= 64 records (incl. length 0 and the full stream), record boundary +-0..3 bytes of the larger ones. [F] at {} record position(s) each of {} single-record faults: length field := 0,1,2,3,odd,len-2,len+2,0xFFFE,0xFFFF; payload emptied; record type := each of 0x00..0x3b and 0x3c,0x3d,0x40,0x7f,0x80,0xfe,0xff; data type := 0..7,255; record deleted / duplicated / swapped with successor; a whole element of each of the 7 kinds spliced in; record replaced by / preceded by each record of the minimal typed alphabet; each 8-byte real := {{0, 1 (smallest unnormalised), 0x80..0, 0x7f..f, 0xff..f, smallest normalised, largest unnormalised at exponent 0, a negative unnormalised}}. {} [S] after each of {} parser contexts (library header x5, structure x4, each element kind after its start record and after XY, after STRANS/MAG, after PROPATTR/PROPVALUE/ENDEL, after ENDLIB) every sequence of 1..2 records over the full typed alphabet ({} records: each defined record type with minimal valid payload, zero-length variant, wrong-size variant, the ten unreleased types, XY with 3/5 points){}, each once followed by end-of-input and once by the context's natural completion. [L] linear-time evidence: for the families many-tiny-structs, many-elements, maximal-xy-records, many-properties, maximal-strings, error-at-the-very-end at 64/128/256 KiB the stand-alone reader (`l21mc gdsread`) runs under `valgrind --tool=cachegrind --cache-sim=no`; the deterministic instruction counts must satisfy I(4N)-I(2N) <= 3 x (I(2N)-I(N)) (linear => 2, quadratic => 4); the counts are echoed under alphabet_use as instructions:<family>:<size>. [HL] all 65 536 values of the length field at 3 record positions; [HT] all 256 x 256 (record type, data type) pairs at 2 record positions. A state is one byte stream (hashed); non-trivial = differs from its unfaulted base.",
                 REPO_FILES.len(),
                 t.pick("every (bases <= 64 records) / first 24, last 12 and every 37th (larger bases)", "every"),
                 fault_table().len(),
@@ -1010,7 +1159,7 @@ impl Driver for C10 {
                 "Ok on a damaged stream is allowed (the reader is lenient about record order); what is required of every Ok is write = Ok and read-back equality".into(),
             ],
             excluded: vec![
-                "time proportional to the input length is covered only as 'terminates under the sandbox watchdog on every explored input' (largest explored input 22 KB); no instruction-count doubling test is run".into(),
+                "time proportional to the input length: decided as 'terminates under the sandbox watchdog on every explored input' plus a bounded instruction-count test (part L) on six shape families at 64/128/256 KiB; this is evidence of linear behaviour on those families up to 256 KiB, not a complexity proof. If valgrind cannot be run the L part is skipped and reported as cap 'cachegrind-unavailable'".into(),
                 "GdsLibrary::open (file front end of the same parser), inputs larger than the bases".into(),
             ],
             technique: "fault enumeration (truncation points, single and paired record faults, bounded-depth record sequences from every parser context, header space) on the real reader in sandboxed workers; accepted libraries re-written and re-read".into(),
@@ -1060,6 +1209,10 @@ impl Driver for C10 {
             for c in 0..NOISE_CHUNKS {
                 v.push(format!("N|{c}"));
             }
+        }
+        // first in the queue: these units are the longest single steps
+        for f in LIN_FAMILIES {
+            v.insert(0, format!("L|{f}"));
         }
         v
     }
@@ -1180,6 +1333,7 @@ impl Driver for C10 {
                     cx.stats.supplement_evaluations += cx.stats.executions - before;
                 }
             }
+            "L" => self.linear_family(parts[1], cx),
             _ => panic!("MACHINERY: C10 bad unit {unit}"),
         }
     }
@@ -1190,6 +1344,15 @@ impl Driver for C10 {
         if key.contains('|') && !key.contains(SEP) {
             return self.run_unit(key, cx);
         }
+        let parts: Vec<&str> = key.split(SEP).collect();
+        if parts[0] == "l" {
+            if parts.len() == 2 {
+                return self.linear_family(parts[1], cx);
+            }
+            let bytes = lin_stream(parts[1], parts[2].parse().expect("MACHINERY: bad C10 key"));
+            cx.stats.executions += 1;
+            return judge(key, &bytes, &|| format!("linear-time family {}, {} KiB", parts[1], parts[2]), cx);
+        }
         self.run_key(key, cx);
     }
     fn classify_crash(&self, _tier: Tier, _key: &str, _death: &Death) -> Option<String> {
@@ -1197,6 +1360,7 @@ impl Driver for C10 {
     }
     fn render_case(&self, _tier: Tier, key: &str) -> Value {
         match build(key, crate::sandbox::seed()) {
+            _ if key.starts_with("l;") => json!({"case": key.replace(SEP, " "), "input": "linear-time family stream (generated by props::c10::lin_stream)"}),
             Some(b) => json!({"case": key.replace(SEP, " "), "input": b.desc, "must_be_rejected": !framing_reaches_endlib(&b.bytes), "stream": render_bytes(&b.bytes, 4000)}),
             None => json!({"case": key.replace(SEP, " ")}),
         }
@@ -1210,6 +1374,12 @@ impl Driver for C10 {
             tags.extend(["part:fault-pairs", "part:noise-supplement"]);
         }
         require_tags(stats, &tags)?;
+        if stats.tags.get("linear-time:skipped").copied().unwrap_or(0) == 0 {
+            require_tags(stats, &["part:linear-time"])?;
+            if stats.outcomes.get("linear-time:ok").copied().unwrap_or(0) != LIN_FAMILIES.len() as u64 {
+                return Err("vacuity guard: not every linear-time family was measured".into());
+            }
+        }
         require_outcomes(stats, &["ok-rewritable", "err:record-decode", "err:record-len", "err:invalid-data-type", "err:invalid-record-type", "err:unsupported", "err:parse", "err:io-or-utf8", "err:builder-or-coordinates"])
     }
 }
@@ -1223,7 +1393,7 @@ mod tests {
     use super::*;
     #[test]
     fn report_bases() {
-        std::env::set_var("VERIF_ROOT", "/tmp/vw-gds");
+        std::env::set_var("VERIF_ROOT", concat!(env!("CARGO_MANIFEST_DIR"), "/.."));
         for b in bases() {
             let d = gs::decode(&b.bytes);
             println!("{:70} bytes={:6} recs={:5} valid={:?} {}", b.name, b.bytes.len(), b.recs.len(), b.valid_len, d.err().unwrap_or_default());
